@@ -251,7 +251,14 @@ type VC struct {
 	nextScope    int
 	lineTag      []int // block index (top frame) in which each line was emitted; -1 = unconditional
 	curBlock     int
-	anc          map[int]map[int]bool // block -> set of ancestor blocks (incl. itself)
+	// model-driven replay (replaygen.go)
+	fn         *ssa.Function
+	spec       *FuncSpec
+	topFr      *Frame
+	replayMode bool
+	replayStrs map[string]bool
+	replayIDs  []int
+	anc        map[int]map[int]bool // block -> set of ancestor blocks (incl. itself)
 }
 
 func newVC(P *Prog, unit string, cur *types.Package) *VC {
@@ -396,6 +403,9 @@ func (vc *VC) oblige(name, kind string, props []string, guard, goal, src string)
 	}
 	o := &Obligation{Name: name, Func: vc.unit, Kind: kind, Props: props, Prefix: len(vc.lines), Guard: guard, Goal: qgoal, Src: src, vc: vc, Block: vc.curBlock, Scope: vc.curScope + 1, Extra: append([]int{}, vc.extraScopes...)}
 	vc.obls = append(vc.obls, o)
+	if vc.replayMode {
+		return o
+	}
 	plain := true
 	for _, c := range conj {
 		if len(c) > 200 && strings.Contains(c, "(forall") {
